@@ -82,6 +82,7 @@ func ihEdge(st int, op *ihOp) (next int, ok bool, lenient bool) {
 
 func c04InterHubProperty(t *rapid.T) { interHubProperty(t, "C04") }
 func c02InterHubProperty(t *rapid.T) { interHubProperty(t, "C02") }
+func c06InterHubProperty(t *rapid.T) { interHubProperty(t, "C06") }
 
 func interHubProperty(t *rapid.T, prop string) {
 	audit := rapid.Bool().Draw(t, "audit")
@@ -347,6 +348,39 @@ func interHubProperty(t *rapid.T, prop string) {
 				nonTrivial = nonTrivial || touched[id] != nil
 			}
 		}
+		// timeout notifications: exactly the transactions that expire in this block (still BEGIN at their H+T), each once,
+		// for their source chain - the local appchain, or the union pier when the source is on the remote hub
+		wantListed := map[string]string{}
+		for _, id := range order {
+			if op := touched[id]; op != nil && op.kind == "expiry" {
+				if txs[id].out {
+					wantListed[id] = "chainH"
+				} else {
+					wantListed[id] = "default_union_pier_id"
+				}
+			}
+		}
+		seenListed := map[string]int{}
+		for chain, sl := range meta.TimeoutCounter {
+			for _, id := range sl.Slice {
+				seenListed[id]++
+				if wantListed[id] == "" {
+					m := txs[id]
+					desc := "unknown to the history"
+					if m != nil {
+						desc = fmt.Sprintf("status %s, timeout height %d", stName[m.status], m.expiry)
+					}
+					f.fail("block %d lists %s as timed out for %s: %s", h, id, chain, desc)
+				} else if wantListed[id] != chain {
+					f.fail("block %d lists the timeout of %s for %s, its source is served by %s", h, id, chain, wantListed[id])
+				}
+			}
+		}
+		for id, chain := range wantListed {
+			if seenListed[id] != 1 {
+				f.fail("block %d is the timeout height of %s (no receipt, no notice so far) but the block's timeout notifications for %s list it %d times (all: %v)", h, id, chain, seenListed[id], timeoutIDs(meta))
+			}
+		}
 		for _, out := range []bool{true, false} {
 			from, to := pairOf(out)
 			if ic := w.Interchain(from); ic != nil {
@@ -402,3 +436,4 @@ func interHubProperty(t *rapid.T, prop string) {
 
 func TestC04InterHub(t *testing.T) { rapid.Check(t, c04InterHubProperty) }
 func TestC02InterHub(t *testing.T) { rapid.Check(t, c02InterHubProperty) }
+func TestC06InterHub(t *testing.T) { rapid.Check(t, c06InterHubProperty) }
